@@ -2,14 +2,15 @@
 # Builds the verification tools from files on disk (offline) and warms the Go
 # build cache for the plain and the race configuration of the worker.
 set -e
-cd /verif
+cd "$(dirname "$0")"
+root=$(pwd)
 export GOFLAGS=-mod=mod GOPROXY=off GOSUMDB=off GOTOOLCHAIN=local
 mkdir -p bin evidence replays
 go build -o bin/simrewrite ./cmd/simrewrite
 go build -o bin/vcheck ./cmd/vcheck
 tmp=$(mktemp -d)
 trap 'rm -rf "$tmp"' EXIT
-./bin/simrewrite -repo /repo -sim /verif/overlay/verifsim -out "$tmp"
+./bin/simrewrite -repo /repo -sim "$root/overlay/verifsim" -out "$tmp"
 go build -tags verif -overlay "$tmp/overlay.json" -o "$tmp/w" ./worker
 go build -race -tags verif -overlay "$tmp/overlay.json" -o "$tmp/wr" ./worker
 echo "setup ok"
